@@ -11,7 +11,7 @@ PTRS = ["uint64", "uint32", "uint16", "uint8"]
 
 
 def gen_opts(rng, thorough):
-    o = dict(dyn_unions=True, void=False)
+    o = dict(dyn_unions=True)
     if thorough:
         o.update(max_fields=rng.choice([6, 9, 12]), max_depth=3, max_len=rng.choice([4, 9]))
         x = rng.random()
@@ -262,6 +262,99 @@ def custom_type_fallback(ctx, rng):
                 ctx.violation("fallback", "custom-type-parse-differs", {"compiled": res[0], "interpreted": res[1]})
 
 
+def special_definitions(ctx, rng):
+    """Definitions and histories the generator does not produce; the two readers must agree on each of them:
+    enums whose underlying type is itself an enum / flag; the pointer type of the cstruct object changed between two
+    loads (structures and pointer typedefs made before the change, used before and after it)."""
+    def outcome(T, data):
+        s = io.BytesIO(data)
+        try:
+            o = T(s)
+        except Exception as e:  # noqa: BLE001
+            return ("err", type(e).__name__)
+        return ("ok", repr(o), s.tell(), dict(o._sizes), o.dumps())
+
+    nested_enums = ("enum A : uint8 { A1 = 1, A2 = 2 };\nenum B : A { B1 = 1, B2 = 2 };\nflag C : B { C1 = 1, C2 = 2 };\n"
+                    "enum D : uint24 { D1 = 1 };\nenum E2 : D { E21 = 1 };\n"
+                    "struct T { B x; uint8 y; B z[2]; C c; E2 e; E2 f[2]; uint8 g : 3; B h : 5; uint8 t; };")
+    for endian in "<>":
+        for align in (False, True):
+            data = bytes(rng.randrange(4) for _ in range(32))
+            res = []
+            for compiled in (True, False):
+                try:
+                    cs = lib.load(nested_enums, endian, align, compiled)
+                    res.append((len(cs.T), outcome(cs.T, data), outcome(cs.T, data[:5])))
+                except Exception as e:  # noqa: BLE001
+                    res.append(("load", type(e).__name__))
+            ctx.evaluation(("nested-enums", endian, align))
+            ctx.cell("special:enum-over-enum")
+            if res[0] != res[1] or res[0][0] == "load":
+                ctx.violation("special", "readers-differ-on-an-enum-over-an-enum",
+                              {"text": nested_enums, "endian": endian, "align": align, "compiled": repr(res[0])[:400],
+                               "interpreted": repr(res[1])[:400], "workload": "special-definitions"})
+            else:
+                ctx.event("special_definitions_checked")
+    # pointer types that are signed or not struct-packed: whatever a pointer's value is then, it is the same one in
+    # both readers (scalars, fixed and null-terminated arrays, behind a dynamic field)
+    ptext = "struct T { uint8 lead; uint16 *p; uint8 x; uint16 *q[2]; uint8 n; char s[n & 3]; uint16 *r; uint16 *z[]; uint8 t; };"
+    for ptr in ("int8", "int16", "int32", "int64", "int24", "int128", "uint128"):
+        for endian in "<>":
+            w = gen.ALL_INTS[ptr][0]
+            data = bytes([1]) + b"\xff\xfe" * (w * 4) + bytes(rng.randrange(128, 256) for _ in range(8 * w)) + bytes(3 * w + 4)
+            res = []
+            for compiled in (True, False):
+                try:
+                    cs = lib.load(ptext, endian, False, compiled, ptr)
+                    s_ = io.BytesIO(data)
+                    o = cs.T(s_)
+                    res.append((len(cs.T.fields["p"].type), int(o.p), [int(v) for v in o.q], int(o.r), [int(v) for v in o.z][:4],
+                                int(o.x), int(o.t), s_.tell(), dict(o._sizes), o.dumps()))
+                except Exception as e:  # noqa: BLE001
+                    res.append(("err", type(e).__name__))
+            ctx.evaluation(("odd-pointer-types", ptr, endian))
+            ctx.cell("special:signed-or-wide-pointer-type")
+            if res[0] != res[1]:
+                ctx.violation("special", "readers-differ-for-a-signed-or-wide-pointer-type",
+                              {"text": ptext, "pointer_type": ptr, "endian": endian, "data": data.hex(),
+                               "compiled": repr(res[0])[:400], "interpreted": repr(res[1])[:400], "workload": "special-definitions"})
+            else:
+                ctx.event("special_definitions_checked")
+    widths = ["uint8", "uint16", "uint32", "uint64", "uint24"]
+    for w1 in widths:
+        for w2 in widths:
+            if w1 == w2:
+                continue
+            endian = rng.choice("<>")
+            first = "typedef uint16 *EARLY;\nstruct A { uint8 lead; uint16 *p; uint8 x; EARLY q[2]; uint8 y; };"
+            second = "struct L { uint8 lead; EARLY p; uint8 x; uint16 *n; uint8 y; A a; };"
+            data = bytes(rng.randrange(1, 256) for _ in range(80))
+            res = []
+            for compiled in (True, False):
+                try:
+                    cs = lib.cstruct(endian=endian, pointer=w1)
+                    cs.load(first, compiled=compiled)
+                    before = outcome(cs.A, data)
+                    cs.pointer = cs.resolve(w2)
+                    cs.load(second, compiled=compiled)
+                    res.append((len(cs.A), len(cs.L), before, outcome(cs.A, data), outcome(cs.L, data)))
+                except Exception as e:  # noqa: BLE001
+                    res.append(("load", type(e).__name__, str(e)[:80]))
+            ctx.evaluation(("pointer-reconfigured", w1, w2, endian))
+            ctx.cell("special:pointer-type-changed-between-loads")
+            if res[0] != res[1] or res[0][0] == "load":
+                ctx.violation("special", "readers-differ-after-the-pointer-type-was-changed",
+                              {"first": first, "second": second, "pointer_types": [w1, w2], "endian": endian,
+                               "compiled": repr(res[0])[:500], "interpreted": repr(res[1])[:500],
+                               "workload": "special-definitions"})
+            elif res[0][2] != res[0][3]:
+                ctx.violation("special", "structure-changes-when-the-pointer-type-is-changed-after-its-definition",
+                              {"first": first, "pointer_types": [w1, w2], "before": repr(res[0][2])[:300],
+                               "after": repr(res[0][3])[:300], "workload": "special-definitions"})
+            else:
+                ctx.event("special_definitions_checked")
+
+
 def explicit_offsets(ctx, n):
     """Structures built through the Python API with explicit field offsets (forward gaps, overlays, fields going
     back into earlier bytes): both readers must still agree."""
@@ -355,6 +448,8 @@ def run(ctx):
     n = N_CASES[ctx.tier]
     if ctx.shard == 0:
         custom_type_fallback(ctx, ctx.rng("custom"))
+    if ctx.shard == 1:
+        special_definitions(ctx, ctx.rng("special"))
     for i in range(n):
         if ctx.out_of_time():
             break
@@ -371,6 +466,12 @@ def run(ctx):
 
 
 def replay(ctx, detail):
+    if detail.get("workload") == "special-definitions":
+        import random
+
+        print(detail)
+        special_definitions(ctx, random.Random(0))
+        return
     case = engine.case_from_detail(detail)
     cfgd = detail["cfg"]
     print("definition:\n" + case["text"])
